@@ -7,6 +7,7 @@ import (
 	"encoding/json"
 	"fmt"
 	"math"
+	"reflect"
 )
 
 func tinyProblem(method string) *genReq {
@@ -146,6 +147,21 @@ func c08Echo(c *caseCtx) {
 	if len(d.Trace.Bias)-nullMixing != fired {
 		c.violate("props-vs-apply", fmt.Sprintf("%d biases report props but %d were applied (%d of them mixing no-ops)", fired, len(d.Trace.Bias), nullMixing), M{"request": g.M})
 		return
+	}
+	// an applied bias that reports null props (mixing below two criteria) hands on exactly the data and parameters it received
+	for _, e := range d.Trace.Bias {
+		if !e.NilReport {
+			continue
+		}
+		diff := snapEqualData(&e.In, &e.Out)
+		if diff == "" && !reflect.DeepEqual(e.In.Params, e.Out.Params) {
+			diff = "method parameters differ"
+		}
+		if diff != "" {
+			c.violate("null-props-changed-state", fmt.Sprintf("biases[%d] %s reports props: null but what it hands on differs from what it received: %s", e.Pos, e.Name, diff), M{"request": g.M})
+			return
+		}
+		c.count("null_props_events_unchanged", 1)
 	}
 	// a bias that does not fire changes nothing: every stage receives exactly what the last fired stage handed on
 	for _, is := range checkChain(d.Trace) {
